@@ -226,8 +226,12 @@ where
         };
         self.start_tree.push(start_node);
 
-        let mut rng = rand::rng();
-        let goal_state = pd.goal.sample_goal(&mut rng).unwrap();
+        // Draw the goal root from the planner's own (seeded) generator when there is one, so that
+        // a seeded planner does not depend on the thread-local generator.
+        let goal_state = match self.rng.as_mut() {
+            Some(rng) => pd.goal.sample_goal(rng.as_mut()).unwrap(),
+            None => pd.goal.sample_goal(&mut rand::rng()).unwrap(),
+        };
         let goal_node = Node {
             state: goal_state,
             parent_index: None,
